@@ -133,6 +133,8 @@ def heads():
                     h += b"Content-Length: 3\r\n"
                     body = b"xyz"
                 yield (ver, method, conn), h + b"\r\n" + body
+        # a request announcing Expect: 100-continue gets an interim response first; nothing else changes
+        yield (ver, b"POST", b"expect"), b"POST /first HTTP/" + ver + b"\r\nHost: h\r\nExpect: 100-continue\r\nContent-Length: 3\r\n\r\nxyz"
 
 
 WORKER_CFGS = [
@@ -161,7 +163,13 @@ def judge(key, prog, kind, kw, o, calls):
     status, cl, chunks, delivery, fail = prog
     if o.exc:
         return "exception-escaped-handle", "handle() raised %s" % o.exc
-    resps, problems = rfc_response.read_all(o.wire, [method, b"GET"], o.server_closed)
+    expect = ()
+    if conn == b"expect":
+        conn = None
+        expect = (0,)
+        if not o.wire.startswith(b"HTTP/1.1 100 Continue\r\n\r\n") and fail != "before" and o.wire:
+            return "no-interim-100-continue", "request carried Expect: 100-continue, wire starts with %r" % o.wire[:40]
+    resps, problems = rfc_response.read_all(o.wire, [method, b"GET"], o.server_closed, expect_continue=expect)
     want_close = (conn is not None and conn.lower() == b"close") or \
                  (ver == b"1.0" and not (conn is not None and conn.lower() == b"keep-alive"))
     failing = fail is not None
@@ -171,7 +179,7 @@ def judge(key, prog, kind, kw, o, calls):
     if failing:
         # acceptable in every failing case: nothing at all, or exactly one complete 5xx error reply
         # (the error page always carries a body, also for HEAD: read it as a GET reply), then close
-        er, eproblems = rfc_response.read_all(o.wire, [b"GET", b"GET"], o.server_closed)
+        er, eproblems = rfc_response.read_all(o.wire, [b"GET", b"GET"], o.server_closed, expect_continue=expect)
         if not er:
             return None
         e0 = er[0]
